@@ -61,12 +61,35 @@ fn ecc_wrap() {
 }
 #[test]
 fn ecc_unwrap_forged() {
+    // two entries genuinely wrapped for the candidate key, whose stored tags are then changed by the
+    // 128-bit differences the solver chose (0 = left intact)
+    let d = [v_u64("d0lo", 1), v_u64("d0hi", 0), v_u64("d1lo", 0), v_u64("d1hi", 1 << 63)];
     report(catch_unwind(|| -> Option<String> {
-        let p = MultiRecipientPersistent {
+        let sk = StaticSecret::from([5u8; 32]);
+        let key = [0x5Au8; 32];
+        let mut p = store_key_for_multi_recipients(&[PublicKey::from(&sk), PublicKey::from(&sk)], &key, &mut ChaChaRng::seed_from_u64(3)).unwrap();
+        for e in 0..2 {
+            let (l, h) = (d[2 * e].to_le_bytes(), d[2 * e + 1].to_le_bytes());
+            for i in 0..8 {
+                p.encrypted_keys[e].tag[i] ^= l[i];
+                p.encrypted_keys[e].tag[8 + i] ^= h[i];
+            }
+        }
+        let intact = (d[0] == 0 && d[1] == 0) || (d[2] == 0 && d[3] == 0);
+        match retrieve_key(&p, &sk) {
+            Ok(None) if !intact => {}
+            Ok(Some(k)) if intact && k == key => {}
+            Ok(None) => return Some("an entry whose tag verifies was ignored".to_string()),
+            Ok(Some(_)) if intact => return Some("wrong key unwrapped".to_string()),
+            Ok(Some(_)) => return Some(format!("retrieve_key returned a key although both stored tags were altered (differences {:#x}/{:#x} and {:#x}/{:#x})", d[0], d[1], d[2], d[3])),
+            Err(e) => return Some(format!("retrieve_key failed: {e:?}")),
+        }
+        // entries that never were wrapped for this key
+        let q = MultiRecipientPersistent {
             public: [9u8; 32],
             encrypted_keys: vec![KeyAndTag { key: [1u8; 32], tag: [2u8; 16] }, KeyAndTag { key: [3u8; 32], tag: [0u8; 16] }],
         };
-        match retrieve_key(&p, &StaticSecret::from([5u8; 32])) {
+        match retrieve_key(&q, &sk) {
             Ok(None) => None,
             Ok(Some(_)) => Some("retrieve_key returned a key for entries whose tags do not verify".to_string()),
             Err(e) => Some(format!("retrieve_key failed: {e:?}")),
